@@ -151,24 +151,31 @@ def determinism_selftest(prop, verif_seed, n, workers_list=(3, None)):
                 raise HarnessError(r['harness_error'])
             d[(r['cls'], r['index'])] = r['digest']
         runs.append(d)
-    # fresh interpreter, different hash seed, reversed order
-    env = dict(os.environ)
-    env['PYTHONHASHSEED'] = '12345'
-    env['VERIF_HASHSEED'] = '12345'
-    p = subprocess.run([sys.executable, '-B', os.path.join(kernel.VERIF_DIR, 'sim', 'entry.py'), 'digests', prop,
-                        str(verif_seed), json.dumps(list(reversed(items)))], capture_output=True, text=True, env=env, timeout=1800)
-    if p.returncode != 0:
-        raise HarnessError(f"digest subprocess failed: {p.stdout[-800:]} {p.stderr[-1500:]}")
-    d = {tuple(k): v for (k, v) in json.loads(p.stdout.strip().splitlines()[-1])}
-    runs.append(d)
+    # fresh interpreters, reversed order: once under the hash seed every check runs with (hard criterion),
+    # once under another PYTHONHASHSEED (soft: verdicts never depend on it - the oracle compares outcomes
+    # within one process - but a digest that does is reported, so that it can be fixed)
+    def fresh(hashseed):
+        env = dict(os.environ)
+        env['PYTHONHASHSEED'] = hashseed
+        env['VERIF_HASHSEED'] = hashseed
+        p = subprocess.run([sys.executable, '-B', os.path.join(kernel.VERIF_DIR, 'sim', 'entry.py'), 'digests', prop,
+                            str(verif_seed), json.dumps(list(reversed(items)))], capture_output=True, text=True, env=env, timeout=1800)
+        if p.returncode != 0:
+            raise HarnessError(f"digest subprocess failed: {p.stdout[-800:]} {p.stderr[-1500:]}")
+        return {tuple(k): v for (k, v) in json.loads(p.stdout.strip().splitlines()[-1])}
+    runs.append(fresh('0'))
+    other = fresh('12345')
     mismatches = []
     for key in runs[0]:
         vals = [r.get(key) for r in runs]
         if len(set(vals)) != 1:
             mismatches.append([list(key), vals])
-    return {'seeds': len(items), 'executions_per_seed': len(runs), 'configurations':
-            ['3 workers', f'{Batch().workers} workers', 'fresh interpreter, PYTHONHASHSEED=12345, reversed order, 8 workers'],
-            'mismatches': len(mismatches), 'mismatch_examples': mismatches[:3]}
+    soft = [list(k) for k in runs[0] if other.get(k) != runs[0][k]]
+    return {'seeds': len(items), 'executions_per_seed': len(runs) + 1, 'configurations':
+            ['3 workers', f'{Batch().workers} workers', 'fresh interpreter, reversed order, 8 workers',
+             'fresh interpreter, PYTHONHASHSEED=12345, reversed order, 8 workers (soft)'],
+            'mismatches': len(mismatches), 'mismatch_examples': mismatches[:3],
+            'digests_sensitive_to_PYTHONHASHSEED': len(soft), 'hashseed_sensitive_examples': soft[:3]}
 
 
 def cmd_digests(prop, verif_seed, items_json):
@@ -245,6 +252,9 @@ def cmd_check(prop, tier, budget_s=None, selftest_n=None):
         if det['mismatches']:
             print(f"HARNESS-ERROR: determinism self-test failed: {det['mismatch_examples']}")
             exit_code = EXIT_HARNESS
+        if det.get('digests_sensitive_to_PYTHONHASHSEED'):
+            print(f"note: {det['digests_sensitive_to_PYTHONHASHSEED']} run digest(s) differ under another PYTHONHASHSEED "
+                  f"(checks always run under PYTHONHASHSEED=0; verdicts are unaffected): {det['hashseed_sensitive_examples']}")
     wall = time.time() - t0
     cov = mod.coverage(agg, conf)
     cov['determinism_selftest'] = det
